@@ -382,8 +382,10 @@ class GeneralSurrogate:
             if self.numElements == 2:
                 return np.squeeze(np.power(output[:,0],3))
             else:
-                d = np.power(output[:,:x.shape[1]*x.shape[1]], 3)
-                d = np.reshape(d, (d.shape[0], x.shape[1], x.shape[1]))
+                #Number of solutes, x may be a list, (e,) or (N,e) array
+                n = self.numElements - 1
+                d = np.power(output[:,:n*n], 3)
+                d = np.reshape(d, (d.shape[0], n, n))
                 return np.squeeze(d)
         else:
             return self.therm.getInterdiffusivity(x, T, phase=phase, *args, **kwargs)
@@ -407,7 +409,9 @@ class GeneralSurrogate:
         phase = _getMatrixPhase(self.phases, phase)
         if phase in self.diffusivityModels:
             output = self._getDiffusivity(x, T, phase)
-            d = np.power(output[:,x.shape[1]*x.shape[1]:],3)
+            #Number of solutes, x may be a float, list, (N,), (e,) or (N,e) array
+            n = self.numElements - 1
+            d = np.power(output[:,n*n:],3)
             return np.squeeze(d)
         else:
             return self.therm.getInterdiffusivity(x, T, phase=phase, *args, **kwargs)
